@@ -13,6 +13,10 @@
  *     file    hex     contents of the backend's user file
  *     rule    pfx,scheme(b|d),realm,algorithm-mask,nonce-secret|~,userhash(0|1),require   (byte fields hex)
  *     op      q,METHOD,target_orig,uri.path,Authorization|~,h2ext   one request through mod_auth_uri_handler()
+ *             h,idmode,<name>:<value>;...      an HTTP/2 request: the decoded header list goes through the real
+ *                         http_request_parse_header() / http_request_validate_pseudohdrs() /
+ *                         http_request_headers_process_h2(), then mod_auth_uri_handler()
+ *                         -> "h2:<status>" | "m=<method>,x=<h2_connect_ext>,t=<target_orig>,p=<uri.path>/<result>|<cache>"
  *             a,dt        advance both clocks dt seconds, running the 1-second trigger each second
  *             e,de        shift the wall clock (log_epoch_secs) by signed de
  *             n,rule,ts,rnd,dalgo   mod_auth_append_nonce() with fixed random -> nonce hex
@@ -48,6 +52,7 @@
 #include "ck.h"
 #include "fdevent.h"
 #include "request.h"
+#include "http_kv.h"
 
 /* ---- deterministic stand-in for the pointer-derived part of the cache key ---- */
 #define LTV_MAXRULES 16
@@ -172,6 +177,47 @@ static void print_digest_challenges(const buffer *vb) {
         s = noe;
     }
     if (0 == n) fputs("?none", stdout);
+}
+
+/* run mod_auth on the prepared request and print "<result>|<cache dump>" */
+static void run_auth(request_st * const r, plugin_data * const p, http_auth_cache * const ac) {
+    r->http_status = 0;
+    r->keep_alive = 1;
+    r->handler_module = NULL;
+    handler_t rc = mod_auth_uri_handler(r, p);
+    const buffer *ru = http_header_env_get(r, CONST_STR_LEN("REMOTE_USER"));
+    const buffer *at = http_header_env_get(r, CONST_STR_LEN("AUTH_TYPE"));
+    const buffer *wa = http_header_response_get(r, HTTP_HEADER_WWW_AUTHENTICATE, CONST_STR_LEN("WWW-Authenticate"));
+    const buffer *ni = http_header_response_get(r, HTTP_HEADER_OTHER, CONST_STR_LEN("Authentication-Info"));
+    if (rc == HANDLER_GO_ON && !ru) fputs("pass", stdout);
+    else if (rc == HANDLER_GO_ON) {
+        fputs("go:", stdout); ltv_puthex(ru->ptr, buffer_clen(ru));
+        printf(":%s:ka%d", at ? at->ptr : "?", r->keep_alive);
+        if (ni) {
+            /* nextnonce="<ts>:..." */
+            const char *s = ni->ptr;
+            if (0 == strncmp(s, "nextnonce=\"", 11)) {
+                const char *c1 = strchr(s + 11, ':');
+                printf(":nn%.*s", c1 ? (int)(c1 - (s + 11)) : 0, s + 11);
+            } else fputs(":nn?", stdout);
+        }
+    }
+    else if (rc == HANDLER_FINISHED && r->http_status == 401) {
+        if (wa && 0 == strncmp(wa->ptr, "Basic realm=\"", 13)) {
+            fputs("401:B:", stdout);
+            ltv_puthex(wa->ptr, buffer_clen(wa));
+        } else if (wa) {
+            fputs("401:D:", stdout);
+            print_digest_challenges(wa);
+        } else fputs("401:-", stdout);
+        printf(":ka%d", r->keep_alive);
+    }
+    else if (rc == HANDLER_FINISHED) printf("%d", r->http_status);
+    else printf("rc%d:%d", (int)rc, r->http_status);
+    fputs("|[", stdout);
+    int first = 1;
+    if (ac) dump_tree(ac->sptree, &first);
+    fputc(']', stdout);
 }
 
 int main(void) {
@@ -345,44 +391,67 @@ int main(void) {
                     http_header_request_set(r, HTTP_HEADER_AUTHORIZATION, CONST_STR_LEN("Authorization"), BUF_PTR_LEN(b));
                     buffer_free(b);
                 }
-                r->h2_connect_ext = atoi(f[5]);
+                r->h2_connect_ext = (atoi(f[5]) && m == HTTP_METHOD_CONNECT);
+                run_auth(r, p, ac);
+            }
+            else if (f[0][0] == 'h' && nf == 3) {
+                /* HTTP/2: the request is built by the real header path, as h2_parse_headers_frame() does */
+                array_reset_data_strings(&r->rqst_headers); r->rqst_htags = 0;
+                array_reset_data_strings(&r->resp_headers); r->resp_htags = 0;
+                array_reset_data_strings(&r->env);
+                r->http_host = NULL;
+                buffer_clear(&r->target); buffer_clear(&r->target_orig);
+                buffer_clear(&r->uri.path); buffer_clear(&r->uri.query);
+                r->http_method = HTTP_METHOD_UNSET;
+                r->http_version = HTTP_VERSION_2;
+                r->h2_connect_ext = 0;
+                r->reqbody_length = 0;
                 r->http_status = 0;
                 r->keep_alive = 1;
-                r->handler_module = NULL;
-                handler_t rc = mod_auth_uri_handler(r, p);
-                const buffer *ru = http_header_env_get(r, CONST_STR_LEN("REMOTE_USER"));
-                const buffer *at = http_header_env_get(r, CONST_STR_LEN("AUTH_TYPE"));
-                const buffer *wa = http_header_response_get(r, HTTP_HEADER_WWW_AUTHENTICATE, CONST_STR_LEN("WWW-Authenticate"));
-                const buffer *ni = http_header_response_get(r, HTTP_HEADER_OTHER, CONST_STR_LEN("Authentication-Info"));
-                if (rc == HANDLER_GO_ON && !ru) fputs("pass", stdout);
-                else if (rc == HANDLER_GO_ON) {
-                    fputs("go:", stdout); ltv_puthex(ru->ptr, buffer_clen(ru));
-                    printf(":%s:ka%d", at ? at->ptr : "?", r->keep_alive);
-                    if (ni) {
-                        /* nextnonce="<ts>:..." */
-                        const char *s = ni->ptr;
-                        if (0 == strncmp(s, "nextnonce=\"", 11)) {
-                            const char *c1 = strchr(s + 11, ':');
-                            printf(":nn%.*s", c1 ? (int)(c1 - (s + 11)) : 0, s + 11);
-                        } else fputs(":nn?", stdout);
+                r->conf.http_parseopts = 9561;
+                r->conf.max_request_field_size = 8192;
+                http_header_parse_ctx hpctx;
+                memset(&hpctx, 0, sizeof(hpctx));
+                hpctx.pseudo = 1;
+                hpctx.max_request_field_size = r->conf.max_request_field_size;
+                hpctx.http_parseopts = r->conf.http_parseopts;
+                const int idmode = atoi(f[1]);
+                char *save2 = NULL;
+                for (char *fld = strtok_r(f[2], ";", &save2); fld; fld = strtok_r(NULL, ";", &save2)) {
+                    char *colon = strchr(fld, ':');
+                    if (!colon) continue;
+                    *colon = 0;
+                    size_t kn, vn;
+                    unsigned char *k = ltv_unhex(fld, &kn), *v = ltv_unhex(colon + 1, &vn);
+                    hpctx.k = (char *)k; hpctx.klen = (uint32_t)kn;
+                    hpctx.v = (char *)v; hpctx.vlen = (uint32_t)vn;
+                    hpctx.id = HTTP_HEADER_H2_UNKNOWN;
+                    if (idmode) { /* ids the ls-hpack static table supplies (name-indexed fields) */
+                        if (kn == 10 && 0 == memcmp(k, ":authority", 10)) hpctx.id = HTTP_HEADER_H2_AUTHORITY;
+                        else if (kn == 7 && 0 == memcmp(k, ":method", 7)) hpctx.id = HTTP_HEADER_H2_METHOD;
+                        else if (kn == 5 && 0 == memcmp(k, ":path", 5)) hpctx.id = HTTP_HEADER_H2_PATH;
+                        else if (kn == 7 && 0 == memcmp(k, ":scheme", 7)) hpctx.id = HTTP_HEADER_H2_SCHEME;
+                        else if (kn == 13 && 0 == memcmp(k, "authorization", 13)) hpctx.id = HTTP_HEADER_AUTHORIZATION;
+                        else if (kn == 10 && 0 == memcmp(k, "user-agent", 10)) hpctx.id = HTTP_HEADER_USER_AGENT;
                     }
+                    const int st = http_request_parse_header(r, &hpctx);
+                    free(k); free(v);
+                    if (0 != st) { r->http_status = st; break; }
                 }
-                else if (rc == HANDLER_FINISHED && r->http_status == 401) {
-                    if (wa && 0 == strncmp(wa->ptr, "Basic realm=\"", 13)) {
-                        fputs("401:B:", stdout);
-                        ltv_puthex(wa->ptr, buffer_clen(wa));
-                    } else if (wa) {
-                        fputs("401:D:", stdout);
-                        print_digest_challenges(wa);
-                    } else fputs("401:-", stdout);
-                    printf(":ka%d", r->keep_alive);
+                if (hpctx.pseudo && 0 == r->http_status)
+                    r->http_status = http_request_validate_pseudohdrs(r, hpctx.scheme, hpctx.http_parseopts);
+                http_request_headers_process_h2(r, 80);
+                if (0 != r->http_status) printf("h2:%d", r->http_status);
+                else {
+                    const buffer *mb = http_method_buf(r->http_method);
+                    printf("m=%s,x=%d,t=", mb->ptr, r->h2_connect_ext);
+                    ltv_puthex(r->target_orig.ptr, buffer_clen(&r->target_orig));
+                    fputs(",p=", stdout);
+                    ltv_puthex(r->uri.path.ptr, buffer_clen(&r->uri.path));
+                    fputc('/', stdout);
+                    r->keep_alive = 1;
+                    run_auth(r, p, ac);
                 }
-                else if (rc == HANDLER_FINISHED) printf("%d", r->http_status);
-                else printf("rc%d:%d", (int)rc, r->http_status);
-                fputs("|[", stdout);
-                int first = 1;
-                if (ac) dump_tree(ac->sptree, &first);
-                fputc(']', stdout);
             }
             else if (f[0][0] == 'a' && nf == 2) {
                 long dt = strtol(f[1], NULL, 10);
